@@ -251,6 +251,11 @@ class Cache:
         ):
             return "window function in `filter`"
 
+        if isinstance(node, verbs.Filter) and any(
+            col.ftype(agg_is_window=True) == Ftype.WINDOW for col in self.cols.values()
+        ):
+            return "`filter` on a table containing window function expression"
+
         if isinstance(node, verbs.Summarize):
             if self.group_by and self.group_by != set(self.partition_by):
                 return "nested summarize"
